@@ -233,6 +233,29 @@ def replay(chk, c):
     h = Harness('c04.cpp', LIBS)
     lib = h.native_lib()
     d, nx, nrho, nsc, mask, order = c['d'], c['nx'], c['nrho'], c['nsc'], c['mask'], c.get('order', 0)
+    if c.get('kind') == 'rhs':
+        # first: the callback itself, called as a driver would (same output array, another input array): it must read the array it is handed
+        code_p = r'''
+import ctypes, sys, json, random
+lib = ctypes.CDLL(sys.argv[1]); cfg=json.loads(sys.argv[2])
+mem = ctypes.create_string_buffer(8192); p = ctypes.c_void_p(ctypes.addressof(mem))
+V=ctypes.c_void_p; U=ctypes.c_uint; Dd=ctypes.c_double
+lib.h_sys_ctor.argtypes=[V,U,U,U,U,Dd]; lib.h_sys_switches.argtypes=[V,U,U]; lib.h_sys_write.argtypes=[V,U,U,U,U,V]
+lib.h_sys_rhs_probe.argtypes=[V,U,V,V,Dd,V]; lib.h_sys_evolve.argtypes=[V,Dd]; lib.h_sys_stepping.argtypes=[V,U,U,U]
+nx,d,nrho,nsc=cfg['nx'],cfg['d'],cfg['nrho'],cfg['nsc']; n=nx*(nrho*d*d+nsc)
+lib.h_sys_ctor(p,nx,d,nrho,nsc,0.3); rng=random.Random(5)
+y0=(Dd*n)(*[rng.uniform(-.5,.5) for _ in range(n)]); lib.h_sys_write(p,nx,d,nrho,nsc,y0)
+lib.h_sys_switches(p,cfg['mask'],cfg['order']); lib.h_sys_stepping(p,1,10,2); lib.h_sys_evolve(p,0.01)
+y1=(Dd*n)(*[rng.uniform(-.5,.5) for _ in range(n)]); y2=(Dd*n)(*[rng.uniform(-.5,.5) for _ in range(n)]); res=(Dd*2)()
+rc=lib.h_sys_rhs_probe(p,n,y1,y2,0.7,res)
+print(json.dumps({'rc':rc,'res':list(res)}))
+'''
+        so_p = build.native_so('c04.cpp')
+        pp = subprocess.run([sys.executable, '-c', code_p, so_p, json.dumps(dict(nx=nx, d=d, nrho=nrho, nsc=nsc, mask=mask, order=order))], capture_output=True, text=True, timeout=120)
+        if pp.returncode == 0 and pp.stdout.strip():
+            rr = json.loads(pp.stdout.strip().split('\n')[-1])
+            if rr['rc'] == 0 and rr['res'][1] > 1e-6 and rr['res'][0] > 1e-12:
+                return True, 'the ODE callback, given a new input array with the same output array, does not compute the derivative of that input (difference %.3g to the derivative written into a fresh output array)' % rr['res'][0]
     if c.get('kind') == 'control':
         # natively: interposed GSL entry points record what the driver receives
         code = r'''
